@@ -78,48 +78,48 @@ PROPS = {
     },
     "C06": {
         "gen": [CONSTS, CHARTABLE],
-        "trusted_base": COMMON_TB + SYNTAX_TB + ["external to the model (parameters): serde_yaml (front matter content is not interpreted; metadata and diagnostics that depend on it are excluded from the compared reply), check_std_entry on `>>` values (until the std-metadata model is plugged in its warnings are excluded from the compared reply), unicase folding (table extracted from the real crate on every run), converter key lookup (table extracted from Converter::bundled() on every run)"],
+        "trusted_base": COMMON_TB + SYNTAX_TB + ["external to the model (parameters): serde_yaml (the decoder only: the harness sends the decoded mapping or the error location, and the validator verdicts; what process_frontmatter does with them — metadata, servings, diagnostics with labels — is modelled and compared unfiltered through recipe_fm / metaonly_fm, see notes/frontmatter.md; mappings containing YAML tags stay excluded), check_std_entry on `>>` values (until the std-metadata model is plugged in its warnings are excluded from the compared reply), unicase folding (table extracted from the real crate on every run), converter key lookup (table extracted from Converter::bundled() on every run)"],
         "assumptions": ["proved: intermediate-reference resolution stays in range; the other clauses of the invariant (C06_statement, kept at full strength) are decided per run by the invariant oracle on the implementation and by whole-recipe correspondence, not by a theorem yet"],
     },
     "C07": {
         "gen": [CONSTS, CHARTABLE, {"script": "diag_catalogue.py"}],
-        "trusted_base": COMMON_TB + SYNTAX_TB + ["external to the model (parameters): serde_yaml (front matter content is not interpreted; metadata and diagnostics that depend on it are excluded from the compared reply), check_std_entry on `>>` values (until the std-metadata model is plugged in its warnings are excluded from the compared reply), unicase folding (table extracted from the real crate on every run), converter key lookup (table extracted from Converter::bundled() on every run)"],
+        "trusted_base": COMMON_TB + SYNTAX_TB + ["external to the model (parameters): serde_yaml (the decoder only: the harness sends the decoded mapping or the error location, and the validator verdicts; what process_frontmatter does with them — metadata, servings, diagnostics with labels — is modelled and compared unfiltered through recipe_fm / metaonly_fm, see notes/frontmatter.md; mappings containing YAML tags stay excluded), check_std_entry on `>>` values (until the std-metadata model is plugged in its warnings are excluded from the compared reply), unicase folding (table extracted from the real crate on every run), converter key lookup (table extracted from Converter::bundled() on every run)"],
         "assumptions": ["proved: validity definition, parse-error short-circuit, output kept without parse errors; soundness on well-formed recipes and completeness/placement of the 59 catalogued constructs are tested (planted constructs, oracle + model correspondence of every label), not proved"],
     },
     "C01": {
         "gen": [CONSTS, CHARTABLE],
-        "trusted_base": COMMON_TB + SYNTAX_TB + ["external to the model (parameters): serde_yaml (front matter content is not interpreted; metadata and diagnostics that depend on it are excluded from the compared reply), check_std_entry on `>>` values (until the std-metadata model is plugged in its warnings are excluded from the compared reply), unicase folding (table extracted from the real crate on every run), converter key lookup (table extracted from Converter::bundled() on every run)"],
+        "trusted_base": COMMON_TB + SYNTAX_TB + ["external to the model (parameters): serde_yaml (the decoder only: the harness sends the decoded mapping or the error location, and the validator verdicts; what process_frontmatter does with them — metadata, servings, diagnostics with labels — is modelled and compared unfiltered through recipe_fm / metaonly_fm, see notes/frontmatter.md; mappings containing YAML tags stay excluded), check_std_entry on `>>` values (until the std-metadata model is plugged in its warnings are excluded from the compared reply), unicase folding (table extracted from the real crate on every run), converter key lookup (table extracted from Converter::bundled() on every run)"],
         "assumptions": ["proved: value-level read-back (integers, decimals with arbitrary blank/comment padding), range gating, plain text runs; composition over components/steps/blocks/analysis (C01_statement) is tested on random abstract recipes x 4 spelling styles, not proved",
                         "the spelling styles vary only what the documented syntax leaves free (DESIGN.md section 6 C01): spacing around tokens, comments between words, line wrapping in step text, CRLF, percent sign vs space before the unit under ADVANCED_UNITS"],
     },
     "C02": {
         "gen": [CONSTS, CHARTABLE],
-        "trusted_base": COMMON_TB + SYNTAX_TB + ["external to the model (parameters): serde_yaml (front matter content is not interpreted; metadata and diagnostics that depend on it are excluded from the compared reply), check_std_entry on `>>` values (until the std-metadata model is plugged in its warnings are excluded from the compared reply), unicase folding (table extracted from the real crate on every run), converter key lookup (table extracted from Converter::bundled() on every run)"],
+        "trusted_base": COMMON_TB + SYNTAX_TB + ["external to the model (parameters): serde_yaml (the decoder only: the harness sends the decoded mapping or the error location, and the validator verdicts; what process_frontmatter does with them — metadata, servings, diagnostics with labels — is modelled and compared unfiltered through recipe_fm / metaonly_fm, see notes/frontmatter.md; mappings containing YAML tags stay excluded), check_std_entry on `>>` values (until the std-metadata model is plugged in its warnings are excluded from the compared reply), unicase folding (table extracted from the real crate on every run), converter key lookup (table extracted from Converter::bundled() on every run)"],
         "assumptions": ['proved: gate lemmas (modifiers / range / alias gates off read as core); the main clause and the per-flag readings are tested over all 256 raw patterns against oracle and model'],
     },
     "C03": {
         "gen": [CONSTS, CHARTABLE],
-        "trusted_base": COMMON_TB + SYNTAX_TB + ["external to the model (parameters): serde_yaml (front matter content is not interpreted; metadata and diagnostics that depend on it are excluded from the compared reply), check_std_entry on `>>` values (until the std-metadata model is plugged in its warnings are excluded from the compared reply), unicase folding (table extracted from the real crate on every run), converter key lookup (table extracted from Converter::bundled() on every run)"] + ["the worker subprocess / watchdog runner of the harness (45 s per case)"],
+        "trusted_base": COMMON_TB + SYNTAX_TB + ["external to the model (parameters): serde_yaml (the decoder only: the harness sends the decoded mapping or the error location, and the validator verdicts; what process_frontmatter does with them — metadata, servings, diagnostics with labels — is modelled and compared unfiltered through recipe_fm / metaonly_fm, see notes/frontmatter.md; mappings containing YAML tags stay excluded), check_std_entry on `>>` values (until the std-metadata model is plugged in its warnings are excluded from the compared reply), unicase folding (table extracted from the real crate on every run), converter key lookup (table extracted from Converter::bundled() on every run)"] + ["the worker subprocess / watchdog runner of the harness (45 s per case)"],
         "assumptions": ["proved: text assembly never asserts on lexed runs, blocks handed to BlockParser::new are non-empty and without trailing newline, pull_line makes progress; the rest of C03_statement (the panic flag of the model is never set) is compared with the real code's panics per run", 'cannot be exhibited by the model, only observed by the worker/watchdog runs: stack exhaustion, allocation failure, time complexity, panics inside dependencies'],
     },
     "C05": {
         "gen": [CONSTS, CHARTABLE],
-        "trusted_base": COMMON_TB + SYNTAX_TB + ["external to the model (parameters): serde_yaml (front matter content is not interpreted; metadata and diagnostics that depend on it are excluded from the compared reply), check_std_entry on `>>` values (until the std-metadata model is plugged in its warnings are excluded from the compared reply), unicase folding (table extracted from the real crate on every run), converter key lookup (table extracted from Converter::bundled() on every run)"],
+        "trusted_base": COMMON_TB + SYNTAX_TB + ["external to the model (parameters): serde_yaml (the decoder only: the harness sends the decoded mapping or the error location, and the validator verdicts; what process_frontmatter does with them — metadata, servings, diagnostics with labels — is modelled and compared unfiltered through recipe_fm / metaonly_fm, see notes/frontmatter.md; mappings containing YAML tags stay excluded), check_std_entry on `>>` values (until the std-metadata model is plugged in its warnings are excluded from the compared reply), unicase folding (table extracted from the real crate on every run), converter key lookup (table extracted from Converter::bundled() on every run)"],
         "assumptions": ['proved: pull_line loses no token; every letter/digit of a non-comment token of a text run is in the assembled text; the whole-document clause is tested (oracle on event spans + event correspondence)'],
     },
     "C14": {
         "gen": [CONSTS, CHARTABLE],
-        "trusted_base": COMMON_TB + SYNTAX_TB + ["external to the model (parameters): serde_yaml (front matter content is not interpreted; metadata and diagnostics that depend on it are excluded from the compared reply), check_std_entry on `>>` values (until the std-metadata model is plugged in its warnings are excluded from the compared reply), unicase folding (table extracted from the real crate on every run), converter key lookup (table extracted from Converter::bundled() on every run)"],
+        "trusted_base": COMMON_TB + SYNTAX_TB + ["external to the model (parameters): serde_yaml (the decoder only: the harness sends the decoded mapping or the error location, and the validator verdicts; what process_frontmatter does with them — metadata, servings, diagnostics with labels — is modelled and compared unfiltered through recipe_fm / metaonly_fm, see notes/frontmatter.md; mappings containing YAML tags stay excluded), check_std_entry on `>>` values (until the std-metadata model is plugged in its warnings are excluded from the compared reply), unicase folding (table extracted from the real crate on every run), converter key lookup (table extracted from Converter::bundled() on every run)"],
         "assumptions": ['proved: the metadata-only scanner only ever hands `>>` lines to metadata_entry and emits exactly the front-matter event when there is front matter; equality of the resulting metadata is tested (oracle on both real parses + model)'],
     },
     "C17": {
         "gen": [CONSTS, CHARTABLE],
-        "trusted_base": COMMON_TB + SYNTAX_TB + ["external to the model (parameters): serde_yaml (front matter content is not interpreted; metadata and diagnostics that depend on it are excluded from the compared reply), check_std_entry on `>>` values (until the std-metadata model is plugged in its warnings are excluded from the compared reply), unicase folding (table extracted from the real crate on every run), converter key lookup (table extracted from Converter::bundled() on every run)"],
+        "trusted_base": COMMON_TB + SYNTAX_TB + ["external to the model (parameters): serde_yaml (the decoder only: the harness sends the decoded mapping or the error location, and the validator verdicts; what process_frontmatter does with them — metadata, servings, diagnostics with labels — is modelled and compared unfiltered through recipe_fm / metaonly_fm, see notes/frontmatter.md; mappings containing YAML tags stay excluded), check_std_entry on `>>` values (until the std-metadata model is plugged in its warnings are excluded from the compared reply), unicase folding (table extracted from the real crate on every run), converter key lookup (table extracted from Converter::bundled() on every run)"],
         "assumptions": ['proved at text-assembly level for all token runs and offsets (comment insertion, trailing comment/space, LF vs CRLF newline tokens); the end-to-end clause (recipe equal up to whitespace in step text, validity equal) is tested on well-formed recipes and filtered soups'],
     },
     "C18": {
         "gen": [CONSTS, CHARTABLE],
-        "trusted_base": COMMON_TB + SYNTAX_TB + ["external to the model (parameters): serde_yaml (front matter content is not interpreted; metadata and diagnostics that depend on it are excluded from the compared reply), check_std_entry on `>>` values (until the std-metadata model is plugged in its warnings are excluded from the compared reply), unicase folding (table extracted from the real crate on every run), converter key lookup (table extracted from Converter::bundled() on every run)"],
+        "trusted_base": COMMON_TB + SYNTAX_TB + ["external to the model (parameters): serde_yaml (the decoder only: the harness sends the decoded mapping or the error location, and the validator verdicts; what process_frontmatter does with them — metadata, servings, diagnostics with labels — is modelled and compared unfiltered through recipe_fm / metaonly_fm, see notes/frontmatter.md; mappings containing YAML tags stay excluded), check_std_entry on `>>` values (until the std-metadata model is plugged in its warnings are excluded from the compared reply), unicase folding (table extracted from the real crate on every run), converter key lookup (table extracted from Converter::bundled() on every run)"],
         "assumptions": ['proved for the instance model: replies are independent of history and of any interleaving of calls; the model has no state other than the lazily built fraction table, which parsing never reads', 'cannot be exhibited by the model: data races, memory-model effects, Sync soundness of dependencies, RandomState seeding; observed only (2..16 threads sharing one parser; CooklangParser: Send + Sync is checked by the compiler in the harness)'],
     },
     "C13": {
